@@ -11,6 +11,57 @@ from common import hexb
 LEVEL = "proof"
 
 SSF_ESCAPE = "C15.ssf_middleware.raises_before_or_while_delegating"
+HS_KEY = "C15.hyperslab_outside_shape.200_then_body_raises"
+
+
+def bad_hyperslab_class(spec, q):
+    """class of the open finding HS_KEY (a predicate on the request alone): the constraint parses and some projected
+    array / grid / structure member carries a hyperslab that does not lie inside its shape - more indices than dimensions,
+    a start at or beyond the extent, a stop beyond the extent, an empty / inverted / negative range, or a stride < 1"""
+    from pydap.parsers import parse_ce
+    try:
+        proj, _sel = parse_ce(q)
+    except Exception:
+        return False
+    shapes = {}
+    for v in spec["vars"]:
+        if v["k"] == "b":
+            shapes.setdefault(v["name"], []).append(v["shape"])
+        elif v["k"] == "st":
+            for m in v["members"]:
+                shapes.setdefault(m["name"], []).append(m["shape"])
+        elif v["k"] == "g":
+            shapes.setdefault(v["name"], []).append(v["array"]["shape"])
+            for m in [v["array"]] + v["maps"]:
+                shapes.setdefault(m["name"], []).append(m["shape"])
+    sliced = []
+    for p in proj:
+        if isinstance(p, str):
+            continue
+        for name, sl in p:
+            if sl:
+                # a variable projected twice with a hyperslab: the second is applied to the already sliced variable
+                if name in sliced:
+                    return True
+                sliced.append(name)
+            for shape in shapes.get(name, []):
+                if len(sl) > len(shape):
+                    return True
+                for s_, n in zip(sl, shape):
+                    if not isinstance(s_, slice):
+                        continue
+                    start = 0 if s_.start is None else s_.start
+                    stop = n if s_.stop is None else s_.stop
+                    if start < 0 or start >= n or stop > n or stop <= start or (s_.step is not None and s_.step < 1):
+                        return True
+    return False
+
+
+def hs_witness():
+    BaseHandler, _ = load()
+    spec = {"name": "d", "vars": [{"k": "b", "name": "a", "dt": "i4", "shape": [3], "dims": [], "data": [5, 6, 7]}]}
+    res = G.run_request(BaseHandler(G.build(spec)), "/d.dods", "a[20]")
+    return res["status"] == 200 and bool(res["body_exc"])
 
 
 def load():
@@ -50,7 +101,7 @@ def canon_impl(res):
     return "status:%s" % res["status"]
 
 
-def judge(ctx, res, path, query, valid, where, case, cls=None):
+def judge(ctx, res, path, query, valid, where, case, cls=None, hs_cls=None):
     """the property, read directly off the response"""
     ext = G.ext_of(path)
     if res["exc"]:
@@ -68,7 +119,14 @@ def judge(ctx, res, path, query, valid, where, case, cls=None):
                             size=len(path) + len(query or ""))
             return "body-raises"
         if res["body_exc"]:
-            ctx.notes_count["invalid CE: 200 then %s while the body is read (outside the property's demand)" % res["body_exc"]] += 1
+            # neither data nor an error document: the status line says 200 and the body cannot be produced
+            ctx.oracle_fail("invalid constraint answered 200 and %s was raised while the body was read (neither data nor "
+                            "an error document)" % res["body_exc"], case, "%s: %s" % (res["body_exc"], res.get("body_exc_msg")),
+                            "an error document, or a 200 body readable to its end", cls=hs_cls, size=len(path) + len(query or ""))
+            ctx.notes_count["invalid CE (%s, .%s, %s): 200 then %s while the body is read%s" % (
+                case.get("class", "?").split("/")[0], ext, where, res["body_exc"],
+                "" if hs_cls else " OUTSIDE the known class")] += 1
+            return "200-body-raises"
         return "200"
     if res["status"] == 500:
         ok = res["cdesc"] == "OPeNDAP_error" and res["body"] is not None
@@ -162,9 +220,11 @@ def explore(ctx, tier, search=False):
             if not res["sent"]:
                 ctx.notes_count["request not expressible through Request.blank"] += 1
                 continue
-            valid = kind == "valid" and pcls == "known-ext"
+            # dmr / html / ver are registered responses too: a valid constraint must give a readable body there as well
+            valid = kind == "valid" and pcls in ("known-ext", "other-ext")
+            hs_cls = HS_KEY if bad_hyperslab_class(spec, q) else None
             case = {"app": "handler", "path": path, "query": q, "dataset": sx, "class": kind + "/" + pcls}
-            verdict = judge(ctx, res, path, q, valid, "handler", case)
+            verdict = judge(ctx, res, path, q, valid, "handler", case, hs_cls=hs_cls)
             impl = canon_impl(res)
             cases.append(("h-handle %s %s %s" % (sx, G.hx(path), G.hx(q)), impl, case))
             ctx.count((sx, path, q), kind != "valid" or bool(q), tag="%s|%s|%s" % (kind, pcls, verdict),
@@ -175,7 +235,7 @@ def explore(ctx, tier, search=False):
                     continue
                 r2 = G.run_request(apps[name], path, q)
                 c2 = dict(case, app=name)
-                v2 = judge(ctx, r2, path, q, valid, name, c2, cls=SSF_ESCAPE if name == "ssf" else None)
+                v2 = judge(ctx, r2, path, q, valid, name, c2, cls=SSF_ESCAPE if name == "ssf" else None, hs_cls=hs_cls)
                 ctx.count((name, sx, path, q), True, tag="%s:%s|%s" % (name, kind, v2))
     # correspondence: the model may leave the inside of the guarded region unresolved ("answered"):
     # then only the fact that the application answered is compared
@@ -206,7 +266,7 @@ def run(ctx):
     ctx.proof_phase()
     table_cases(ctx)
     explore(ctx, ctx.tier)
-    return ctx.finish(search=lambda c: explore(c, "thorough", search=True), witnesses={SSF_ESCAPE: ssf_witness})
+    return ctx.finish(search=lambda c: explore(c, "thorough", search=True), witnesses={SSF_ESCAPE: ssf_witness, HS_KEY: hs_witness})
 
 
 def ssf_witness():
@@ -237,7 +297,7 @@ def replay(payload):
     q = Quiet("C15", "quick", 0)
     q.findings = []
     q.notes_count = Counter()
-    judge(q, res, c["path"], c["query"], c["class"].startswith("valid/known-ext"), c["app"], c)
+    judge(q, res, c["path"], c["query"], c["class"].startswith(("valid/known-ext", "valid/other-ext")), c["app"], c)
     for fl in q.oracle_failures:
         print("  fails:", fl["what"])
     return not q.oracle_failures
